@@ -72,6 +72,21 @@ KANI_URL_LOCALE = {
     "source_hint": "leptos_i18n_router/src/routing.rs",
 }
 
+import c14seg_extract  # noqa: E402
+NATIVE_PATH_SEGMENTS = {
+    "name": "c14_native_path_segments",
+    "cwd": lambda repo, root: __import__("os").path.join(root, "kani-crates", "c14seg"),
+    "prepare": c14seg_extract.prepare,
+    "checks": ["identity_rewrite", "there_and_back"],
+    "env": {"quick": {"C14SEG_MAX_N": "3", "C14SEG_MAX_M": "3"}, "thorough": {"C14SEG_MAX_N": "4", "C14SEG_MAX_M": "5"}},
+    "timeout": 900,
+    "target_tag": "c14seg",
+    "bounded": "exhaustive native enumeration, not symbolic: every path of at most 3 (quick) / 4 (thorough) segments over "
+               "{a, docs, x} x every route of at most 3 (quick) / 5 (thorough) segments over {Unit, Static \"\", Static a, "
+               "Static docs, Param, OptionalParam a, OptionalParam opt, Splat}; `docs` localized as `documents`",
+    "source_hint": "leptos_i18n_router/src/routing.rs",
+}
+
 _PO = ["po_1_1", "po_2_1", "po_1_2", "po_2_2", "po_3_1", "po_3_2", "po_2_3", "po_3_3"]
 KANI_NEGOTIATION = {
     "name": "c12_kani_negotiation",
@@ -175,8 +190,10 @@ PROPS = {
         "level": "model_checking",
         "verus": [],
         "kani": [KANI_URL_LOCALE],
+        "native": [NATIVE_PATH_SEGMENTS],
         "explanation": "bounded model checking (Kani/CBMC) of get_locale_from_path, extracted verbatim; "
-                       "a stand-in, not a proof: path length and alphabet are bounded; first sentence of the property only",
+                       "a stand-in, not a proof: path length and alphabet are bounded; plus an exhaustive native enumeration "
+                       "(closed universe) of the segment-level rewriting functions, extracted verbatim",
     },
     "C18": {
         "level": "model_checking",
